@@ -31,9 +31,9 @@ class DelayedQueue(Generic[T]):
     def close(self) -> None:
         """Close queue, indicating no more items will be added."""
         self._closed = True
-        # Interrupt the blocking _not_empty.wait() call in get
+        # Interrupt the blocking _not_empty.wait() calls in get
         self._not_empty.acquire()
-        self._not_empty.notify()
+        self._not_empty.notify_all()
         self._not_empty.release()
 
     def get(self) -> T | None:
